@@ -13,6 +13,7 @@ THEOREMS = [NS + t for t in [
     "C08_lib1_add_track",
     "C08_lib1_removed_track_stays_removed_partial",
     "C08_lib1_removed_track_stays_removed_counterexample",
+    "C08_lib1_removed_track_never_returns_autoincrement",
     "C08_lib1_removed_crate_stays_removed_partial",
     "C08_lib1_removed_crate_stays_removed_counterexample",
 ]]
@@ -30,7 +31,7 @@ MANIFEST_TEXT = ("Schema 1.x on the whole-library model: tracks() / containing_c
                  "membership and track calls (C08_lib1_refines); every member of every crate is a LIVE track in the sense of "
                  "the track calls — is_valid() true, snapshot() does not throw track_deleted (C08_lib1_members_are_live_tracks); "
                  "remove_track erases memberships and every dependent row of both files at once; frame between the table "
-                 "families; stale track handles stay dead until the id is re-issued (_partial + _counterexample).")
+                 "families; stale track and crate handles stay dead until the id is re-issued (_partial + _counterexample, `reissues` form); on the AUTOINCREMENT schemas a removed track never returns (full statement).")
 
 
 def tie(ctx):
